@@ -109,10 +109,10 @@ func runC07(res *lib.Result, tier string, seed int64, args []string) error {
 		selfAssignRead := map[string]bool{}
 		for _, w := range occs {
 			if w.kind == "W" && (w.init == "name:"+w.name || w.init == "or:"+w.name) {
+				// (every read of the name in that statement: 'x = x or "s" + (x)' reports neither)
 				for _, o := range occs {
 					if o.kind == "U" && o.name == w.name && o.sl == w.sl && o.sc > w.sc {
 						selfAssignRead[occLoc(o)] = true
-						break
 					}
 				}
 			}
